@@ -281,7 +281,7 @@ const (
 
 var personalityName = [...]string{"honest", "squash", "whole", "multipart-always", "permuted-multipart"}
 
-var faultFamilies = []string{"status", "neterr", "truncate", "403", "400", "firstonly", "cancel", "cache-getmiss", "cache-readerr", "cache-adderr", "cache-commiterr", "mix"}
+var faultFamilies = []string{"status", "neterr", "truncate", "403", "400", "firstonly", "cancel", "cache-getmiss", "cache-readerr", "cache-adderr", "cache-commiterr", "mix", "overlap", "overlap"}
 
 func genScenario(r *vf.Run, stage, idx int) *scenario {
 	rng := r.RNG(uint64(stage), uint64(idx))
@@ -417,6 +417,10 @@ func genScenario(r *vf.Run, stage, idx int) *scenario {
 				p.Modes = []int{pHonest, pPermuted, pMultipartAlways}
 			}
 			p.Evict = "none"
+			if family == "overlap" {
+				p.PFault = 80
+				p.Evict = rng.PickS("all", "some", "none")
+			}
 		case "solo":
 			p.OpsPerG = rng.Range(16, 32)
 		case "herd":
@@ -435,7 +439,7 @@ func genScenario(r *vf.Run, stage, idx int) *scenario {
 	// counted although its commit failed is seen before a later successful fetch hides it.
 	addPhase("walk", "")
 	s.Phases[0].WalkPart = rng.Pick(25, 34, 50, 50, 67)
-	addPhase("solo", rng.PickS("truncate", "truncate", "cache-commiterr", "cache-commiterr", "cache-adderr", "neterr", "status", "cancel", "403", "mix"))
+	addPhase("solo", rng.PickS("truncate", "truncate", "cache-commiterr", "cache-commiterr", "cache-adderr", "neterr", "status", "cancel", "403", "mix", "overlap", "overlap"))
 	np := rng.Range(3, 6)
 	for i := 0; i < np; i++ {
 		kind := rng.PickS("herd", "herd", "mixed", "mixed", "mixed", "walk")
@@ -445,6 +449,9 @@ func genScenario(r *vf.Run, stage, idx int) *scenario {
 			if kind == "herd" && rng.Chance(1, 2) {
 				family = rng.PickS("cache-getmiss", "cache-readerr", "cache-adderr", "status", "cancel", "truncate", "403")
 			}
+		}
+		if kind == "walk" && rng.Chance(1, 2) {
+			family = "overlap" // the only faulty walk: chunk-by-chunk fetches answered with overlapping parts
 		}
 		if kind == "herd" && rng.Chance(1, 3) {
 			// the stalled leader request of the shared flight is cut inside a part after k
@@ -473,6 +480,7 @@ type phaseCfg struct {
 type server struct {
 	reg   *memreg.Registry
 	sc    *scenario
+	data  []byte // the blob (read-only)
 	dgst  digest.Digest
 	cur   atomic.Pointer[phaseCfg]
 	token atomic.Int64
@@ -601,6 +609,99 @@ func truncateInPart(res *http.Response, pick uint64, chunk int64) {
 	res.Body = &failBody{data: body[:cut], err: io.ErrUnexpectedEOF}
 }
 
+// overlapParts rewrites a multipart/byteranges answer so that its parts overlap, repeat or
+// exceed what was asked while every requested byte is still delivered under a correct
+// Content-Range: a part of n >= 2 chunks [0,n) becomes [0,j) + [i,n) with 0 <= i < j < n
+// (a repeated chunk is followed by a new one inside the second part), the same two in the
+// other order, the part twice, three overlapping parts, a superset (one more chunk before
+// and/or after, when the blob has them), or - rarely - an overlap that starts in the
+// middle of a chunk. Parts stay chunk-aligned except for the last variant.
+func overlapParts(res *http.Response, pick uint64, c int64, data []byte) {
+	mt, params, err := mime.ParseMediaType(res.Header.Get("Content-Type"))
+	if err != nil || !strings.HasPrefix(mt, "multipart/") || res.Body == nil || res.StatusCode != 206 {
+		return
+	}
+	raw, _ := io.ReadAll(res.Body)
+	res.Body = io.NopCloser(bytes.NewReader(raw))
+	mr := multipart.NewReader(bytes.NewReader(raw), params["boundary"])
+	size := int64(len(data))
+	var out [][2]int64
+	r := prng.New(pick)
+	for {
+		p, err := mr.NextRawPart()
+		if err == io.EOF {
+			break
+		}
+		if err != nil {
+			return
+		}
+		var b, e, sz int64
+		if _, err := fmt.Sscanf(p.Header.Get("Content-Range"), "bytes %d-%d/%d", &b, &e, &sz); err != nil || b%c != 0 || e >= size || b > e {
+			return
+		}
+		n := (e-b)/c + 1 // chunks of this part
+		variant := r.Intn(12)
+		if r.Chance(1, 4) {
+			// superset first: one more chunk before and/or after
+			if b >= c && r.Bool() {
+				b -= c
+				n++
+			}
+			if e+1 < size {
+				e += c
+				if e >= size {
+					e = size - 1
+				}
+				n++
+			}
+		}
+		if n < 2 {
+			out = append(out, [2]int64{b, e}, [2]int64{b, e})
+			continue
+		}
+		j := 1 + r.Int63n(n-1) // 1..n-1
+		i := r.Int63n(j)       // 0..j-1
+		first, second := [2]int64{b, b + j*c - 1}, [2]int64{b + i*c, e}
+		switch {
+		case variant < 6:
+			out = append(out, first, second)
+		case variant < 8:
+			out = append(out, second, first)
+		case variant < 9:
+			out = append(out, [2]int64{b, e}, [2]int64{b, e})
+		case variant < 11:
+			out = append(out, first, second, [2]int64{b, e})
+		default:
+			if c >= 2 {
+				second[0] += 1 + r.Int63n(c-1) // not chunk-aligned
+			}
+			out = append(out, first, second)
+		}
+	}
+	if len(out) == 0 {
+		return
+	}
+	var buf bytes.Buffer
+	mw := multipart.NewWriter(&buf)
+	if mw.SetBoundary(params["boundary"]) != nil {
+		return
+	}
+	for _, x := range out {
+		h := textproto.MIMEHeader{}
+		h.Set("Content-Type", "application/octet-stream")
+		h.Set("Content-Range", fmt.Sprintf("bytes %d-%d/%d", x[0], x[1], size))
+		w, err := mw.CreatePart(h)
+		if err != nil {
+			return
+		}
+		w.Write(data[x[0] : x[1]+1])
+	}
+	mw.Close()
+	res.Body = io.NopCloser(bytes.NewReader(buf.Bytes()))
+	res.ContentLength = int64(buf.Len())
+	res.Header.Set("Content-Length", strconv.Itoa(buf.Len()))
+}
+
 // permuteParts re-emits a multipart/byteranges body with its parts in another order
 // (every requested range is still delivered, correctly labelled).
 func permuteParts(res *http.Response, pick uint64) {
@@ -673,7 +774,7 @@ func (s *server) script(q *memreg.Request) memreg.Behaviour {
 	rng := prng.New(prng.Hash64(pc.spec.Seed, fnv64(sig), uint64(n)))
 	fam := pc.spec.Family
 	if fam == "mix" {
-		fam = []string{"status", "neterr", "truncate", "403", "400", "firstonly", "cancel"}[rng.Intn(7)]
+		fam = []string{"status", "neterr", "truncate", "403", "400", "firstonly", "cancel", "overlap"}[rng.Intn(8)]
 	}
 	hit := pc.faulty && rng.Intn(100) < pc.spec.PFault
 	if fam == "leader-truncate" {
@@ -764,6 +865,15 @@ func (s *server) script(q *memreg.Request) memreg.Behaviour {
 				b.Status, b.Label = 400, "F:400"
 				return b
 			}
+		case "overlap":
+			// A multipart answer that delivers every requested byte, correctly labelled, but
+			// with overlapping / repeated / extra parts. Not one of the answers the
+			// statement says must work, so an error is acceptable (label F:), wrong bytes never.
+			pick, c, data := rng.U64(), s.sc.Chunk, s.data
+			b.Mode = memreg.MultipartAlways
+			b.MutateResp = func(res *http.Response) { overlapParts(res, pick, c, data) }
+			b.Label += "F:overlap"
+			return b
 		case "firstonly":
 			if multi {
 				b.Mode, b.Label = memreg.FirstOnly, "F:firstonly"
@@ -1370,7 +1480,7 @@ func runScenario(r *vf.Run, sc *scenario) {
 	fastFill(sc.ContentID, w.data)
 	w.reg = memreg.New()
 	dg := w.reg.AddBlob(regHost, repo, w.data)
-	w.srv = &server{reg: w.reg, sc: sc, dgst: dg}
+	w.srv = &server{reg: w.reg, sc: sc, dgst: dg, data: w.data}
 	w.srv.reg.AllowToken(tokenName(0), true)
 	setup := &phaseCfg{id: -1, spec: phaseSpec{Kind: "setup", Modes: []int{pHonest}}}
 	w.srv.cur.Store(setup)
@@ -1544,14 +1654,18 @@ func (w *world) runPhase(pi int) {
 		}
 		for _, ci := range order {
 			sp := opSpec{Kind: opRead, Off: int64(ci) * sc.Chunk, N: sc.Chunk}
-			switch rng.Intn(6) {
+			x := rng.Intn(6)
+			if ph.Family == "overlap" && rng.Bool() {
+				x = 2 // spans of 2-4 chunks: parts long enough to overlap
+			}
+			switch x {
 			case 0:
 				sp.Kind = opCache
 			case 1:
 				sp.Off += rng.Int63n(sc.Chunk)
 				sp.N = 1
 			case 2:
-				if ph.WalkKind == "nested" || rng.Bool() {
+				if ph.WalkKind == "nested" || ph.Family == "overlap" || rng.Bool() {
 					sp.N = sc.Chunk * int64(rng.Range(2, 4)) // spans cached and missing neighbours
 				}
 			}
